@@ -204,7 +204,17 @@ def r18_2(ctx, R, memo):
             fs = vf.get(bb, frozenset())
             no_group = any((d, "None") in fs for _, d in lasts) or bb in reg_none
             last_full = any((d, "Err") in fs for _, d in tries) or bb in reg_err
-            ctx.ob("R18.2", b, "alloc-only-on-growth@%s" % _site_label(b, bb), no_group or last_full, b.loc(bb),
+            if not (no_group or last_full):
+                # the refusal may come back as the verdict of an inlined helper (`if let Some(next) = place_or_grow(..)`), tested
+                # again after a join: decide on every feasible arrival
+                from lib_flow import all_arrivals_cross_cf
+                try:
+                    ok_, na_, bad_ = all_arrivals_cross_cf(b, fl, bb, lambda lab: no_group_edge(lab) or refused_edge(lab))
+                except RuntimeError:
+                    ok_ = False
+                if ok_:
+                    last_full = "every one of %d feasible arrivals" % na_
+            ctx.ob("R18.2", b, "alloc-only-on-growth@%s" % _site_label(b, bb), bool(no_group or last_full), b.loc(bb),
                    "%s (%s); behind 'no group yet': %s, behind 'last group refused': %s" % (callee.split("::")[-1], why, no_group, last_full))
         # capacities of fresh groups
         for bb, t, fn in b.calls():
